@@ -449,7 +449,14 @@ class Sparsify(EnvironmentFilter):
                 new['context'] = self._make_sparse(new['context'], context_has_headers, 'context')
 
             if self._action and 'actions' in new:
-                new['actions'] = list(map(self._make_sparse,new['actions'],repeat(actions_has_headers),repeat('action')))
+                old_actions = new['actions']
+                new['actions'] = list(map(self._make_sparse,old_actions,repeat(actions_has_headers),repeat('action')))
+
+                if new['actions'] != old_actions:
+                    #reward functions are keyed by the actions they were given so we re-key them
+                    for target in ['rewards','feedbacks']:
+                        if callable(new.get(target)):
+                            new[target] = DiscreteReward(new['actions'],list(map(new[target],old_actions)))
 
             if self._action and 'action' in new:
                 new['action'] = self._make_sparse(new['action'],action_has_headers,'action')
@@ -545,7 +552,14 @@ class Densify(EnvironmentFilter):
                 new['context'] = self._make_dense(new['context'])
 
             if self._action and 'actions' in new:
-                new['actions'] = list(map(self._make_dense,new['actions']))
+                old_actions = new['actions']
+                new['actions'] = list(map(self._make_dense,old_actions))
+
+                if any(n is not o for n,o in zip(new['actions'],old_actions)):
+                    #reward functions are keyed by the actions they were given so we re-key them
+                    for target in ['rewards','feedbacks']:
+                        if callable(new.get(target)):
+                            new[target] = DiscreteReward(new['actions'],list(map(new[target],old_actions)))
 
             if self._action and 'action' in new:
                 new['action'] = self._make_dense(new['action'])
